@@ -4,10 +4,11 @@ From Coq Require Import List NArith Bool.
 From Coq Require Import ExtrOcamlBasic.
 From Rustun Require Import Codec.Filter Codec.DecodeLoop Codec.FilterCase.
 From Rustun Require Import Base.Tlv Agent.Reasm Agent.ReasmDrive Agent.ReasmRs.
-From Rustun Require Import Agent.Rto Agent.Model Agent.Monitors Agent.AbsGlue Agent.F32 Agent.RttExact.
+From Rustun Require Import Agent.Rto Agent.Model Agent.Monitors Agent.AbsGlue Agent.Concrete Agent.F32 Agent.RttExact.
 From Rustun Require Import Codec.Wire Codec.WireMon Codec.EncodeMsg.
 From Rustun Require Import Agent.ArcHeap Proofs.ArcHeapProofs.
 From Rustun Require Import Codec.AttrValue Codec.WireFull Codec.Message Codec.Keys Codec.Ignored.
+From Rustun Require Import Codec.ValueApi.
 Extraction Language OCaml.
 Extraction "model.ml"
   FilterCase.filter_case FilterCase.monitor_C09 FilterCase.monitor_C18_all
@@ -20,5 +21,10 @@ Extraction "model.ml"
   WireFull.dec_ok_full WireFull.typed_attrs
   Message.encode_typed Message.decode_typed Message.monitor_C01 Message.ctor_of Message.quoted_roundtrips Message.ctor_class Message.dangling_backslash Keys.st_key Keys.lt_key
   Ignored.monitor_C02ign Ignored.diff_bits
-  AbsGlue.abs_packet AbsGlue.nonce_features AbsGlue.nonce_str
+  AbsGlue.abs_packet AbsGlue.nonce_features AbsGlue.nonce_str Concrete.craft_packet
+  ValueApi.va_num_case ValueApi.va_nonce_new ValueApi.va_new_nonce_cookie ValueApi.va_nonce_view ValueApi.va_realm_new
+  ValueApi.va_software_new ValueApi.va_padding_new ValueApi.va_username_new ValueApi.va_userhash_new ValueApi.va_key_short_term
+  ValueApi.va_key_long_term ValueApi.va_error_code_view ValueApi.va_array_from_slice ValueApi.va_header_try_from
+  ValueApi.va_fingerprint_from ValueApi.va_fixed_from ValueApi.va_cookie_eq ValueApi.va_txid_display ValueApi.va_msgtype_from_bytes
+  ValueApi.va_ua_from ValueApi.va_ua_add ValueApi.va_pa_from
   RttExact.est0 RttExact.est_step RttExact.est_rto_for_send.
